@@ -64,8 +64,73 @@ Definition parse_int (s : string) : option Z :=
 
 Fixpoint drop_while (p : ascii -> bool) (l : list ascii) : list ascii :=
   match l with [] => [] | c :: t => if p c then drop_while p t else l end.
+(* strings.TrimSpace trims UNICODE white space (unicode.IsSpace) off a UTF-8 byte string, decoding one
+   character at a time from the left (utf8.DecodeRuneInString) and then from the right
+   (utf8.DecodeLastRuneInString); an invalid or truncated sequence decodes as RuneError, which is not white
+   space.  The white-space characters are the six ASCII ones of is_trim_space and
+     U+0085 U+00A0                      = C2 85, C2 A0
+     U+1680                             = E1 9A 80
+     U+2000..U+200A U+2028 U+2029 U+202F = E2 80 80..8A, E2 80 A8, E2 80 A9, E2 80 AF
+     U+205F                             = E2 81 9F
+     U+3000                             = E3 80 80
+   and Go's decoder accepts exactly these (shortest-form) encodings for them, so "the text starts (ends) with
+   a white-space character" is "one of these byte sequences is a prefix (suffix)" - checked exhaustively
+   against strings.TrimSpace on all byte strings of length <= 3 (in several contexts) and on every code point
+   (work package s8u).  NOTE the regular expression's \s (is_re_space) stays ASCII-only and has no \v: an
+   OUTER \v / NEL / NBSP / U+3000 is trimmed, an INNER one (between count and unit) is refused. *)
+Definition usp2 (c d : ascii) : bool :=
+  (zchr c =? 194) && ((zchr d =? 133) || (zchr d =? 160)).
+Definition usp3 (c d e : ascii) : bool :=
+  let x := zchr c in let y := zchr d in let z := zchr e in
+  ((x =? 225) && (y =? 154) && (z =? 128))
+  || ((x =? 226) && (((y =? 128) && (((128 <=? z) && (z <=? 138)) || (z =? 168) || (z =? 169) || (z =? 175)))
+                     || ((y =? 129) && (z =? 159))))
+  || ((x =? 227) && (y =? 128) && (z =? 128)).
+(* the same tests with the bytes in REVERSED order (c is the LAST byte of the text) *)
+Definition usp2r (c d : ascii) : bool := usp2 d c.
+Definition usp3r (c d e : ascii) : bool := usp3 e d c.
+
+(* does l start with a white-space character (q2 / q3: the two- and three-byte tests) *)
+Definition head_sp (q2 : ascii -> ascii -> bool) (q3 : ascii -> ascii -> ascii -> bool) (l : list ascii) : bool :=
+  match l with
+  | [] => false
+  | c :: t =>
+    if is_trim_space c then true else
+    match t with
+    | [] => false
+    | d :: t1 =>
+      if q2 c d then true else
+      match t1 with [] => false | e :: _ => q3 c d e end
+    end
+  end.
+(* strings.TrimLeftFunc(l, unicode.IsSpace) *)
+Fixpoint strip_sp (q2 : ascii -> ascii -> bool) (q3 : ascii -> ascii -> ascii -> bool) (l : list ascii) : list ascii :=
+  match l with
+  | [] => []
+  | c :: t =>
+    if is_trim_space c then strip_sp q2 q3 t else
+    match t with
+    | [] => l
+    | d :: t1 =>
+      if q2 c d then strip_sp q2 q3 t1 else
+      match t1 with
+      | [] => l
+      | e :: t2 => if q3 c d e then strip_sp q2 q3 t2 else l
+      end
+    end
+  end.
+(* one white-space character, encoded *)
+Definition is_sp_enc (q2 : ascii -> ascii -> bool) (q3 : ascii -> ascii -> ascii -> bool) (r : list ascii) : bool :=
+  match r with
+  | [c] => is_trim_space c
+  | [c; d] => q2 c d
+  | [c; d; e] => q3 c d e
+  | _ => false
+  end.
+Definition is_uspace_enc : list ascii -> bool := is_sp_enc usp2 usp3.
+
 Definition trim_space (s : string) : string :=
-  unchars (rev (drop_while is_trim_space (rev (drop_while is_trim_space (chars s))))).
+  unchars (rev (strip_sp usp2r usp3r (rev (strip_sp usp2 usp3 (chars s))))).
 
 (* strings.TrimRight(s, cutset) *)
 Definition trim_right (cut : ascii -> bool) (l : list ascii) : list ascii :=
